@@ -1116,9 +1116,11 @@ func (interp *Interpreter) cfg(root *node, sc *scope, importPath, pkgName string
 				n.typ = dest.typ
 				n.findex = dest.findex
 				n.level = dest.level
-			case isResultStore(n, sc):
+			case isResultStore(n, sc) && (isInterface(n.typ) || !isInterface(sc.def.typ.ret[childPos(n)])):
 				// To avoid a copy in frame, if the result is to be returned, store it directly
-				// at the frame location reserved for output arguments.
+				// at the frame location reserved for output arguments. Not for a result of an
+				// interface type when the operation gives a value of its own type (comparison,
+				// remainder, shift): the return statement converts the value.
 				n.findex = childPos(n)
 			default:
 				// Allocate a new location in frame, and store the result here.
@@ -2564,7 +2566,8 @@ func (interp *Interpreter) cfg(root *node, sc *scope, importPath, pkgName string
 				n.typ = dest.typ
 				n.findex = dest.findex
 				n.level = dest.level
-			case isResultStore(n, sc):
+			case isResultStore(n, sc) && !isInterface(sc.def.typ.ret[childPos(n)]):
+				// Not for a result of an interface type: the return statement converts the value.
 				pos := childPos(n)
 				n.typ = sc.def.typ.ret[pos]
 				n.findex = pos
